@@ -31,7 +31,7 @@ def cases(seed, tier):
         tops = [t, t2]
         for k in range(2):
             c = rng.choice(['Node', 'Array', 'PointList', 'PointListArray'])
-            tops.append({'cls': c, 'name': 'u%d' % k, 'tok': T.fresh_tok() if c != 'Node' else 0, 'rank': 1 if c == 'Array' else 0,
+            tops.append({'cls': c, 'name': 'u%d' % (k if rng.random() < 0.7 else 0), 'tok': T.fresh_tok() if c != 'Node' else 0, 'rank': 1 if c == 'Array' else 0,
                          'mds': [['m1', T.fresh_tok()] + (['zz'] if rng.random() < 0.3 else [])] if rng.random() < 0.5 else [], 'kids': []})
         if rng.random() < 0.25:
             # a name clash deep in the tree: an Array with a child called like one of its datasets
